@@ -110,19 +110,38 @@ Proof.
   intros [p H]. simpl. now rewrite (nth_error_replace_up _ x _ _ H), H.
 Qed.
 
-Lemma root_path q' : forall t1 t2 A,
-  wf t1 = true \/ wf_sub t1 = true -> q' <> [] ->
-  node_at t1 q' = Some A -> reroot_path t1 q' = Some t2 ->
+(** every node met along the path (the start excluded) has a parent slot *)
+Fixpoint has_ups (t : utree) (q : list nat) : Prop :=
+  match q with
+  | [] => True
+  | k :: r => match nth_error (uslots t) k with
+              | Some (Some (_, c)) => 1 <= n_up (uslots c) /\ has_ups c r
+              | _ => False
+              end
+  end.
+
+Lemma has_ups_of_wf q : forall t A,
+  wf t = true \/ wf_sub t = true -> node_at t q = Some A -> has_ups t q.
+Proof.
+  induction q as [|k r IH]; intros t A Hwf Hn; simpl; auto.
+  simpl in Hn. destruct (nth_error (uslots t) k) as [[[e ch]|]|] eqn:E; try discriminate.
+  assert (Hc : wf_sub ch = true).
+  { destruct t as [n c sl]. simpl in *.
+    destruct Hwf as [H|H]; apply andb_true_iff in H as [_ H]; eapply wf_sub_child; eauto. }
+  split; [|eapply IH; eauto].
+  destruct ch as [n' c' sl']. rewrite wf_sub_unfold in Hc. apply andb_true_iff in Hc as [W _].
+  apply Nat.eqb_eq in W. simpl. lia.
+Qed.
+
+Lemma root_path q' : forall t1 t2,
+  q' <> [] -> has_ups t1 q' -> reroot_path t1 q' = Some t2 ->
   node_at t2 (rev (ups t1 q')) =
   Some (UNode (uname t1) (ucom t1) (set_nth (hd 0 q') None (uslots t1))).
 Proof.
-  induction q' as [|k r IH]; intros t1 t2 A Hwf Hne Hn Hr; [congruence|].
-  destruct t1 as [n c sl]. simpl in Hn.
-  destruct (nth_error sl k) as [[[e [n' c' sl']]|]|] eqn:Ek; try discriminate.
-  assert (Wc : wf_sub (UNode n' c' sl') = true).
-  { simpl in Hwf. destruct Hwf as [H|H]; apply andb_true_iff in H as [_ H]; eapply wf_sub_child; eauto. }
-  assert (U1 : 1 <= n_up sl').
-  { rewrite wf_sub_unfold in Wc. apply andb_true_iff in Wc as [W _]. apply Nat.eqb_eq in W. lia. }
+  induction q' as [|k r IH]; intros t1 t2 Hne Hu Hr; [congruence|].
+  destruct t1 as [n c sl]. simpl in Hu.
+  destruct (nth_error sl k) as [[[e [n' c' sl']]|]|] eqn:Ek; try tauto.
+  destruct Hu as [U1 Hu]. simpl in U1.
   simpl in Hr. rewrite Ek in Hr.
   set (x := Some (e, UNode n c (set_nth k None sl))) in *.
   simpl hd. simpl uname. simpl ucom. simpl uslots.
@@ -130,32 +149,14 @@ Proof.
   - simpl in Hr. inversion Hr; subst t2. simpl. rewrite Ek. simpl.
     now rewrite nth_error_replace_up_at.
   - assert (Hk2 : exists p, nth_error sl' k2 = Some (Some p)).
-    { simpl in Hn. destruct (nth_error sl' k2) as [[p|]|]; try discriminate. eauto. }
-    assert (Hn' : node_at (UNode n' c' (replace_up sl' x)) (k2 :: r2) = Some A).
-    { now apply node_at_replace_up_same with (n := n') (c := c'). }
-    assert (W' : wf (UNode n' c' (replace_up sl' x)) = true \/ wf_sub (UNode n' c' (replace_up sl' x)) = true).
-    { left. rewrite wf_unfold. rewrite wf_sub_unfold in Wc. apply andb_true_iff in Wc as [W1 W2].
-      apply Nat.eqb_eq in W1. rewrite n_up_replace_up, W1. simpl.
-      destruct (kids_of_replace_up sl' (e, UNode n c (set_nth k None sl)) U1) as [A0 [B0 [E1 E2]]].
-      fold x in E2. rewrite E2. rewrite E1 in W2. rewrite forallb_app in *. apply andb_true_iff in W2 as [Wa Wb].
-      rewrite Wa. simpl. rewrite Wb, andb_true_r.
-      (* the old root, hung below, is a well-formed subtree *)
-      rewrite wf_sub_unfold.
-      destruct Hwf as [H|H].
-      - rewrite wf_unfold in H. apply andb_true_iff in H as [H1 H2]. apply Nat.eqb_eq in H1.
-        rewrite (n_up_set_nth sl k _ Ek), H1. simpl.
-        destruct (kids_of_set_nth sl k _ Ek) as [A1 [B1 [F1 F2]]]. rewrite F2. rewrite F1 in H2.
-        rewrite forallb_app in *. apply andb_true_iff in H2 as [Ha Hb]. simpl in Hb.
-        apply andb_true_iff in Hb as [_ Hb]. now rewrite Ha, Hb.
-      - (* t1 is itself a subtree: not needed by the callers, but the statement allows it *)
-        rewrite wf_sub_unfold in H. apply andb_true_iff in H as [H1 H2]. apply Nat.eqb_eq in H1.
-        rewrite (n_up_set_nth sl k _ Ek), H1. simpl.
-        (* two parent slots: not a well-formed subtree; this branch is excluded below *)
-        exfalso. exact (False_ind _ (ltac:(idtac))). }
-    specialize (IH (UNode n' c' (replace_up sl' x)) t2 A W' ltac:(discriminate) Hn' Hr).
+    { simpl in Hu. destruct (nth_error sl' k2) as [[p|]|]; try tauto. eauto. }
+    assert (Hu' : has_ups (UNode n' c' (replace_up sl' x)) (k2 :: r2)).
+    { destruct Hk2 as [p Hp]. simpl. rewrite (nth_error_replace_up _ x _ _ Hp).
+      simpl in Hu. now rewrite Hp in Hu. }
+    specialize (IH (UNode n' c' (replace_up sl' x)) t2 ltac:(discriminate) Hu' Hr).
     change (ups (UNode n c sl) (k :: k2 :: r2)) with
         (match nth_error sl k with Some (Some (_, c0)) => up_index (uslots c0) :: ups c0 (k2 :: r2) | _ => [] end).
-    rewrite Ek. simpl uslots. simpl rev.
+    rewrite Ek. cbn [rev uslots].
     rewrite (ups_replace_up n' c' sl' n' c' x k2 r2 Hk2) in IH.
     rewrite node_at_app, IH. simpl hd. simpl uname. simpl ucom. simpl uslots.
     simpl node_at.
@@ -163,4 +164,228 @@ Proof.
     { intros E. destruct Hk2 as [p Hp]. rewrite E, nth_error_up_index in Hp by exact U1. discriminate. }
     rewrite nth_error_set_nth_other by exact Hneq.
     now rewrite nth_error_replace_up_at.
+Qed.
+
+(** * prefixes of a valid path *)
+Lemma is_prefix_node a : forall b t R,
+  is_prefix a b = true -> node_at t b = Some R ->
+  exists m, node_at t a = Some m /\
+            (a = b \/ exists k e c, nth_error (uslots m) k = Some (Some (e, c))).
+Proof.
+  induction a as [|x a IH]; intros b t R Hp Hn.
+  - exists t. split; auto. destruct b as [|y b]; [now left|right].
+    simpl in Hn. destruct (nth_error (uslots t) y) as [[[e c]|]|] eqn:E; try discriminate. eauto.
+  - destruct b as [|y b]; [discriminate|]. simpl in Hp. apply andb_true_iff in Hp as [E Hp].
+    apply Nat.eqb_eq in E. subst y. simpl in Hn. simpl.
+    destruct (nth_error (uslots t) x) as [[[e c]|]|]; try discriminate.
+    destruct (IH _ _ _ Hp Hn) as [m [Hm Hc]]. exists m. split; auto.
+    destruct Hc as [->|Hc]; auto.
+Qed.
+
+Lemma node_at_masked n c sl j p b :
+  p <> [] -> node_at (UNode n c (set_nth j None sl)) p = Some b -> node_at (UNode n c sl) p = Some b.
+Proof.
+  destruct p as [|k r]; [congruence|]. intros _. simpl.
+  destruct (Nat.eq_dec j k) as [->|Hne].
+  - destruct (nth_error sl k) eqn:E.
+    + rewrite nth_error_set_nth_same by (apply nth_error_Some; congruence). discriminate.
+    + assert (length sl <= k) by (now apply nth_error_None).
+      assert (nth_error (set_nth k None sl) k = None)
+        by (apply nth_error_None; rewrite length_set_nth; lia).
+      rewrite H0. discriminate.
+  - now rewrite nth_error_set_nth_other by exact Hne.
+Qed.
+
+(** * the branches along a path *)
+Lemma path_edges_length p : forall t b, node_at t p = Some b -> length (path_edges t p) = length p.
+Proof.
+  induction p as [|k r IH]; intros t b H; simpl; auto.
+  simpl in H. destruct (nth_error (uslots t) k) as [[[e c]|]|]; try discriminate.
+  simpl. f_equal. eapply IH; eauto.
+Qed.
+
+Lemma path_edges_nth p : forall t b i,
+  node_at t p = Some b -> i < length p ->
+  exists P c, node_at t (firstn i p) = Some P /\
+              nth_error (uslots P) (nth i p 0) = Some (Some (nth i (path_edges t p) e0, c)).
+Proof.
+  induction p as [|k r IH]; intros t b i H Hi; simpl in Hi; [lia|].
+  simpl in H. destruct (nth_error (uslots t) k) as [[[e c]|]|] eqn:E; try discriminate.
+  destruct i as [|i].
+  - exists t, c. simpl. rewrite E. auto.
+  - destruct (IH c b i H ltac:(lia)) as [P [c' [H1 H2]]].
+    exists P, c'. simpl. rewrite E. auto.
+Qed.
+
+Lemma walk_le half ls : forall i acc i' len, walk half ls i acc = (i', len) -> i' <= i + length ls.
+Proof.
+  induction ls as [|x r IH]; intros i acc i' len H; simpl in H.
+  - inversion H; subst. lia.
+  - destruct (qltb acc half).
+    + apply IH in H. simpl. lia.
+    + inversion H; subst. lia.
+Qed.
+
+(** * a richer inversion of a success of [reroot_midpoint] *)
+Definition mp_from2 (t1 : utree) (L : list (list nat * utree)) (st : mp_state) : Prop :=
+  match st with
+  | MPNone => True
+  | MPBest v p => exists pn l, In pn L /\ view_from t1 (fst pn) = Some v /\ mlp_tip v = Some (Some p, l)
+  end.
+
+Definition mp_result (v : tipview) (pA : list nat) (curlength : Q) (ea : einfo) : option utree :=
+  let t2 := tv_tree v in
+  let j := tv_slot v in
+  let m := length pA in
+  let pe := rev (path_edges t2 pA) ++ [ea] in
+  let half := qhalf curlength in
+  let '(i, len) := walk half (map elen pe) 0 0%Q in
+  let idx := i - 1 in
+  let ce := nth idx pe e0 in
+  let cut := (len - half)%Q in
+  let e1 := mkE (elen ce - cut)%Q (esup ce) nilv [] in
+  let e2 := mkE cut (esup ce) nilv [] in
+  if is_prefix pA (tv_root v) then
+    match pA with
+    | [] => cut_and_root t2 [] j true e2 e1
+    | _ :: _ => cut_and_root t2 (removelast pA) (last pA 0) false e1 e2
+    end
+  else if Nat.ltb idx m then
+    let d := m - idx in
+    cut_and_root t2 (firstn (d - 1) pA) (nth (d - 1) pA 0) true e2 e1
+  else cut_and_root t2 [] j false e1 e2.
+
+Lemma reroot_midpoint_inv2 t t' :
+  reroot_midpoint t = Ok t' ->
+  exists q lf v pA l cur ea,
+    In (q, lf) (tip_paths (unroot t)) /\ view_from (unroot t) q = Some v /\
+    mlp_tip v = Some (Some pA, l) /\ edge_at (tv_tree v) (tv_slot v) = Some ea /\
+    mp_result v pA cur ea = Some t'.
+Proof.
+  unfold reroot_midpoint. cbv zeta.
+  set (t1 := unroot t).
+  set (f := fun (st : res (mp_state * Q)) (pn : list nat * utree) => _).
+  assert (INV : forall l acc,
+             incl l (tip_paths t1) ->
+             match acc with Ok (s, _) => mp_from2 t1 (tip_paths t1) s | Err _ => True end ->
+             match fold_left f l acc with Ok (s, _) => mp_from2 t1 (tip_paths t1) s | Err _ => True end).
+  { induction l as [|pn l IH]; intros acc Hi Ha; simpl; auto.
+    apply IH; [intros x Hx; apply Hi; now right|].
+    unfold f at 1. destruct acc as [[best cur]|m]; auto.
+    destruct (view_from t1 (fst pn)) as [v|] eqn:Ev; auto.
+    destruct (mlp_tip v) as [[op l0]|] eqn:Em; auto.
+    destruct (qltb cur l0); auto.
+    destruct op as [p|]; auto. simpl. exists pn, l0. repeat split; auto. apply Hi. now left. }
+  specialize (INV (tip_paths t1) (Ok (MPNone, 0%Q)) (incl_refl _) I).
+  destruct (fold_left f (tip_paths t1) (Ok (MPNone, 0%Q))) as [[[|v pA] cur]|m]; try discriminate.
+  simpl in INV. destruct INV as [[q lf] [l [Hin [Hv Hm]]]]. simpl in Hv.
+  destruct (edge_at (tv_tree v) (tv_slot v)) as [ea|] eqn:Ee; [|discriminate].
+  intros H. exists q, lf, v, pA, l, cur, ea. repeat split; auto.
+  unfold mp_result. cbv zeta.
+  destruct (walk _ _ 0 0%Q) as [i len].
+  match type of H with
+  | match ?r with Some _ => _ | None => _ end = _ =>
+    destruct r as [t4|] eqn:Er; [|discriminate]
+  end.
+  inversion H; subst t4. first [reflexivity | exact Er].
+Qed.
+
+(** * (i) for RerootMidPoint: tip-to-tip path lengths *)
+Theorem reroot_midpoint_preserves t t' :
+  wf t = true -> 2 <= degree t -> (rooted t = true -> root_has_inner_child t = true) ->
+  (rooted t = true -> forall p, In p (kids t) -> (0 <= elen (fst p))%Q) ->
+  reroot_midpoint t = Ok t' ->
+  wf t' = true /\ degree t' = 2 /\ Permutation (leaves t') (leaves t) /\
+  dists_equiv (pairdists elen t') (pairdists elen t).
+Proof.
+  intros Hwf Hd Hi Hnn H.
+  destruct (reroot_midpoint_wf_leaves t t' Hwf Hd Hi H) as [W' [D' L']].
+  split; [exact W'|]. split; [exact D'|]. split; [exact L'|].
+  destruct (reroot_midpoint_inv2 _ _ H) as (q&lf&v&pA&l&cur&ea&Hin&Hv&Hm&He&Hres).
+  destruct (unroot_stage t Hwf Hd Hi) as [W1 [D1 [L1 _]]].
+  assert (P1 : dists_equiv (pairdists elen (unroot t)) (pairdists elen t)).
+  { destruct (rooted t) eqn:Hr.
+    - apply unroot_pairdists_elen; auto.
+    - rewrite (unroot_not_rooted t Hr). reflexivity. }
+  pose proof Hin as Hin'. apply tip_paths_In in Hin' as [Hq _].
+  destruct (view_from_spec _ _ _ _ W1 D1 Hq Hv) as [W2 [D2 [L2 P2]]].
+  transitivity (pairdists elen (tv_tree v)); [|etransitivity; [apply P2 | exact P1]].
+  (* the shape of the view and of the path *)
+  unfold mlp_tip in Hm. unfold edge_at in He.
+  destruct (tv_tree v) as [n c sl] eqn:E2. simpl uslots in He.
+  destruct (nth_error sl (tv_slot v)) as [[[ea' a]|]|] eqn:Ej; try discriminate.
+  inversion He; subst ea'. clear He.
+  destruct (qeqb (elen ea) nilv); [discriminate|].
+  destruct (mlp (UNode n c (set_nth (tv_slot v) None sl))) as [[pA' l0]|] eqn:Emlp; [|discriminate].
+  inversion Hm; subst pA' l. clear Hm.
+  assert (U0 : n_up sl = 0).
+  { rewrite wf_unfold in W2. apply andb_true_iff in W2 as [W _]. now apply Nat.eqb_eq in W. }
+  assert (Kmask : kids (UNode n c (set_nth (tv_slot v) None sl)) <> []).
+  { unfold kids. simpl uslots. destruct (kids_of_set_nth sl _ _ Ej) as [A0 [B0 [F1 F2]]].
+    rewrite F2. pose proof (length_slots sl) as HL. rewrite U0, F1, app_length in HL. simpl in HL.
+    unfold degree in D2. simpl in D2. destruct A0, B0; simpl in *; try discriminate; lia. }
+  destruct (mlp_leaf _ _ _ Emlp) as [[K0 _]|[_ [HpA [b [Hb Kb]]]]]; [contradiction|].
+  apply node_at_masked in Hb; [|exact HpA].
+  (* the far end is not on the way to the root *)
+  assert (NS : is_prefix pA (tv_root v) = false).
+  { destruct (is_prefix pA (tv_root v)) eqn:Ep; auto. exfalso.
+    unfold view_from in Hv. destruct q as [|k0 r0]; [discriminate|]. cbv zeta in Hv.
+    assert (Hq' : k0 :: r0 = removelast (k0 :: r0) ++ [last (k0 :: r0) 0])
+      by (apply removelast_last_nat; discriminate).
+    remember (removelast (k0 :: r0)) as q' eqn:Eq'.
+    destruct (reroot_path (unroot t) q') as [t2|] eqn:Er; [|discriminate].
+    inversion Hv; subst v. cbn [tv_tree tv_slot tv_root] in *. subst t2.
+    destruct q' as [|k1 r1].
+    - simpl in Ep. destruct pA; [congruence|discriminate].
+    - rewrite Hq', node_at_app in Hq.
+      destruct (node_at (unroot t) (k1 :: r1)) as [A|] eqn:EA; [|discriminate].
+      assert (HU : has_ups (unroot t) (k1 :: r1)) by (eapply has_ups_of_wf; eauto).
+      pose proof (root_path (k1 :: r1) (unroot t) _ ltac:(discriminate) HU Er) as HR.
+      destruct (is_prefix_node _ _ _ _ Ep HR) as [m [Hm' Hc]].
+      assert (m = b) by congruence. subst m.
+      destruct Hc as [Hc|(k&e&ch&Hc)].
+      + (* the far end would be the old root, which has children *)
+        rewrite Hc in Hb. rewrite HR in Hb. inversion Hb; subst b.
+        unfold kids in Kb. simpl uslots in Kb.
+        destruct (unroot t) as [n1 c1 sl1] eqn:E1. simpl uslots in *. simpl hd in *.
+        simpl in EA. destruct (nth_error sl1 k1) as [[x|]|] eqn:Ek1; try discriminate.
+        destruct (kids_of_set_nth sl1 k1 x Ek1) as [A0 [B0 [F1 F2]]]. rewrite F2 in Kb.
+        rewrite wf_unfold in W1. apply andb_true_iff in W1 as [W _]. apply Nat.eqb_eq in W.
+        pose proof (length_slots sl1) as HL. rewrite W, F1, app_length in HL. simpl in HL.
+        unfold degree in D1. simpl in D1. apply app_eq_nil in Kb as [-> ->]. simpl in HL. lia.
+      + assert (In (e, ch) (kids b)) by (apply kids_of_In; eapply nth_error_In; eauto).
+        rewrite Kb in H0. destruct H0. }
+  unfold mp_result in Hres. cbv zeta in Hres. rewrite E2 in Hres. rewrite NS in Hres.
+  set (t2 := UNode n c sl) in *.
+  set (m := length pA) in *.
+  set (PE := path_edges t2 pA) in *.
+  assert (LPE : length PE = m) by (unfold PE, m; eapply path_edges_length; eauto).
+  destruct (walk (qhalf cur) (map elen (rev PE ++ [ea])) 0 0%Q) as [i len] eqn:Ew.
+  assert (Hi' : i <= m + 1).
+  { apply walk_le in Ew. rewrite map_length, app_length, rev_length, LPE in Ew. simpl in Ew. lia. }
+  destruct (Nat.ltb (i - 1) m) eqn:Elt.
+  - apply Nat.ltb_lt in Elt.
+    set (d := m - (i - 1)) in *.
+    assert (Hd1 : d - 1 < length pA) by (fold m; unfold d; lia).
+    destruct (path_edges_nth pA t2 b (d - 1) Hb Hd1) as [P [ch [HP HK]]].
+    fold PE in HK.
+    assert (Ece : nth (i - 1) (rev PE ++ [ea]) e0 = nth (d - 1) PE e0).
+    { rewrite app_nth1 by (rewrite rev_length; lia). rewrite rev_nth by lia.
+      f_equal. unfold d. lia. }
+    rewrite Ece in Hres.
+    set (ce := nth (d - 1) PE e0) in *.
+    destruct (cut_and_root_spec elen t2 (firstn (d - 1) pA) (nth (d - 1) pA 0) true
+                (mkE (len - qhalf cur) (esup ce) nilv []) (mkE (elen ce - (len - qhalf cur)) (esup ce) nilv [])
+                P ce ch W2 D2 HP HK) as [t4 [R [E4 [_ [_ [_ P4]]]]]].
+    { simpl. ring. }
+    assert (t4 = t') by congruence. subst t4. exact P4.
+  - apply Nat.ltb_ge in Elt. assert (Ei : i - 1 = m) by lia.
+    assert (Ece : nth (i - 1) (rev PE ++ [ea]) e0 = ea).
+    { rewrite Ei, app_nth2 by (rewrite rev_length; lia). rewrite rev_length, LPE, Nat.sub_diag. reflexivity. }
+    rewrite Ece in Hres.
+    destruct (cut_and_root_spec elen t2 [] (tv_slot v) false
+                (mkE (elen ea - (len - qhalf cur)) (esup ea) nilv []) (mkE (len - qhalf cur) (esup ea) nilv [])
+                t2 ea a W2 D2 eq_refl Ej) as [t4 [R [E4 [_ [_ [_ P4]]]]]].
+    { simpl. ring. }
+    assert (t4 = t') by congruence. subst t4. exact P4.
 Qed.
